@@ -48,3 +48,15 @@ VARIANTS = [
       "        if (cycle > 4) or (max_time <= 1e-10):",
       "        if (cycle >= 5) or (max_time <= 1e-10):", "silent"),
 ]
+
+VARIANTS += [
+    V("row-check-controls-only", O,
+      "                    if not _is_ok(point):  # is there an error in the "
+      "vector?",
+      "                    if not _is_ok(point[n:-1]):  # control ok?",
+      "fire", "D10.2", "seed C10-row-check-controls-only: a slowly growing "
+      "state leaves (-1e10, 1e10) unnoticed"),
+    V("first-row-check-state-only", O,
+      "            if not _is_ok(point):\n",
+      "            if not _is_ok(point[0:n]):\n", "fire", "D10.2"),
+]
